@@ -1,6 +1,6 @@
 (* C08 - Commit-reveal rounds: prevote in window, vote must open it, tally once per round. *)
 From Settlus Require Import Base.Prelude Base.Hex Base.Dec Oracle.Arith Oracle.ArithProofs
-  Settlement.Model Oracle.Model Ante.Fee Chain.Model Proofs.OracleEnd Proofs.ChainInv.
+  Settlement.Model Oracle.Model Ante.Fee Chain.Model Genesis.Model Proofs.OracleEnd Proofs.ChainInv.
 
 (* (1) round arithmetic, with the uint64 / int64 machine arithmetic of the code: for every vote period
    parameter validation accepts and every height, both computations give the round
@@ -165,7 +165,18 @@ Example C08_nonvacuous :
   /\ is_tally 17 3 = true /\ is_tally 16 3 = false /\ is_tally 11 3 = true.
 Proof. unfold valid_period, valid_height, max_vote_period, two63. repeat split; try lia; try (vm_compute; reflexivity). Qed.
 
+(* (8) a chain restarted from an export taken at height h publishes, for its first block h+1, the round of h+1 -
+   whatever the alignment of h with the rounds - so that prevotes and votes in that block are accepted under exactly
+   the conditions of an uninterrupted chain (C08_prevote_iff / C08_vote_iff apply: their only premise is round_is) *)
+Theorem C08_restart_round : forall g vals pool cred s h,
+  round_is (import_o g vals pool cred s h) (h + 1).
+Proof.
+  intros g vals pool cred s h. unfold round_is, import_o. cbn [o_params o_round set_round].
+  eexists. split; [reflexivity|]. unfold next_round. cbn [rd_id rd_prevote_end rd_vote_end o_params]. repeat split.
+Qed.
+
 Print Assumptions C08_round_arithmetic.
+Print Assumptions C08_restart_round.
 Print Assumptions C08_tally_once_per_round.
 Print Assumptions C08_round_info_current.
 Print Assumptions C08_prevote_iff.
